@@ -237,6 +237,15 @@ func authzFuncs() []FuncSpec {
 	}
 	for i := range fs {
 		fs[i].Rename = azRename
+		if fs[i].Name == "AuthResponseToken" {
+			// its anonymous struct wraps the token response and the session state (AuthResponseCode's: code, state, session state)
+			own := map[string]string{}
+			for k, v := range azRename {
+				own[k] = v
+			}
+			own["<*ast.StructType>{}"] = "Hand.tokenResponse"
+			fs[i].Rename = own
+		}
 	}
 	return fs
 }
